@@ -105,9 +105,12 @@ fn base_cfg(prop: &str, world: WorldKind, colls: u8, oracles: u32, r: &mut Rng) 
     // SetTree<i32, i32>: small uninstrumented types, so not for the callback-panic check)
     // (and a tenth of either the fat one: 280-byte keys / 272-byte values)
     let key_ty = match world {
-        WorldKind::Key => match r.below(10) {
-            0 | 1 | 2 => 1,
-            3 => 2,
+        // (zero-sized values, `KeyExpTree<K, u8, ()>`, only where nothing but the process outcome
+        // and the export's length is looked at)
+        WorldKind::Key => match r.below(20) {
+            0..=5 => 1,
+            6 | 7 => 2,
+            8 if oracles & !(O_CRASH | O_KEXPORT | O_CAP) == 0 => 3,
             _ => 0,
         },
         WorldKind::Map | WorldKind::Set => match r.below(20) {
@@ -120,7 +123,7 @@ fn base_cfg(prop: &str, world: WorldKind, colls: u8, oracles: u32, r: &mut Rng) 
     };
     // the plain map packs (key offset, version) into its 32-bit value for universes up to 1024
     // keys; over larger ones the value is the (unique) version alone
-    let t0 = if key_ty == 1 && world != WorldKind::Map && world != WorldKind::Set { *r.pick(&[0, 0, 0, 5, 100, 250]) } else { t0 };
+    let t0 = if (key_ty == 1 || key_ty == 3) && world != WorldKind::Map && world != WorldKind::Set { *r.pick(&[0, 0, 0, 5, 100, 250]) } else { t0 };
     Cfg { prop: prop.to_string(), world, colls, oracles, cap, key_lo, universe, seg_ty, seg_lo, seg_hi, t0, sweep_mode, key_ty }
 }
 
